@@ -128,6 +128,30 @@ def gen_process_item(w, m):
                                 "comp": [wg.rnd(w, max(0.02, comp[0] - 0.05), min(0.98, comp[0] + 0.05), 5), "weight"]}
     if item["cond"]["pp"] and not model.startswith("ideal") :
         item["cond"]["pp"] = min(item["cond"]["pp"], 0.1)
+    r = w.random()
+    if r < 0.05:
+        # initial_conditions is an Optional field (default None): a model kept without them (binary mode only:
+        # the JSON mode of the code under test cannot write None conditions and raises)
+        item["ic_none"] = True
+    elif r < 0.17:
+        # one Conditions object reused for a sweep: the generators keep the caller's object as
+        # model.initial_conditions, and the caller changes its public attributes for the next run before the
+        # collected models are saved - the table and the side file then legitimately state different things
+        ed = {}
+        for key in w.sample(["pt", "pp", "T", "amount", "area", "comp"], w.randint(1, 3)):
+            if key == "pt":
+                ed["pt"] = None if (item["cond"].get("pt") is not None and w.random() < 0.5) else round(w.uniform(200.0, 290.0), 2)
+            elif key == "pp":
+                ed["pp"] = None if (item["cond"].get("pp") is not None and w.random() < 0.5) else wg.rnd(w, 0.01, 2.0, 3)
+            elif key == "T":
+                ed["T"] = round(T + w.choice([-1, 1]) * w.uniform(0.5, 20.0), 2)
+            elif key == "amount":
+                ed["amount"] = wg.rnd(w, 0.5, 50.0, 3)
+            elif key == "area":
+                ed["area"] = wg.rnd(w, 0.001, 2.0, 4)
+            else:
+                ed["comp"] = [wg.rnd(w, 0.02, 0.98, 4), w.choice(["weight", "molar"])]
+        item["cond_edit"] = ed
     return item
 
 
@@ -323,6 +347,12 @@ def gen_plan(verif_seed, run, deep=False):
     enabled = [k for k, _ in weights if k in ("save_process", "load_process") or o.random() < 0.8]
     perm_listing = o.random() < 0.7
     n_file = 0
+    curve_names = None
+    if o.random() < 0.2 and idx["curve"]:       # one naming habit per run, in a run that works with curve files
+        curve_names = o.choice(["files/curve_333K_p0.%dkPa", "files/curve_333K_p0.%dkPa", "files/curve_%d.CSV", "files/curve_%d.dat",
+                                "files/curve.v%d", "files/curve.v%d", "files/curve_%d", "files/run.2.%d.csv"])
+        weights = [(k, (wt * 4 if k in ("save_curve", "load_curve") else wt)) for k, wt in weights]
+        enabled = sorted(set(enabled) | {"save_curve", "load_curve"})
     for _ in range(n_ops):
         kinds = [(k, wt) for k, wt in weights if k in enabled]
         k = o.choices([x[0] for x in kinds], [x[1] for x in kinds])[0]
@@ -331,6 +361,8 @@ def gen_plan(verif_seed, run, deep=False):
             op["obj"] = o.choice(idx["process"])
             op["dir"] = fav_dir if o.random() < 0.75 else o.choice(dirs)
             op["safe"] = o.random() < 0.5
+            if pool[op["obj"]].get("ic_none"):
+                op["safe"] = False
             if o.random() < 0.2:
                 op["as_str"] = True
             saves["process"].append(op["id"])
@@ -358,6 +390,9 @@ def gen_plan(verif_seed, run, deep=False):
                 op["file"] = prev["file"]
                 if "membrane_dir" in prev:
                     op["membrane_dir"] = prev["membrane_dir"]
+            elif curve_names is not None and o.random() < 0.8:
+                # the path is the caller's choice: no extension, another extension, decimal points in the name
+                op["file"] = curve_names % n_file
             else:
                 op["file"] = "files/curve_%d.csv" % n_file
             n_file += 1
@@ -462,7 +497,8 @@ def gen_plan(verif_seed, run, deep=False):
         "prop": PROP, "verif_seed": verif_seed, "run": run, "run_seed": rs,
         "budget": w.choice([2000, 5000, 20000]),
         "membranes": membranes, "pool": pool, "ops": ops, "fault_free": n_faults == 0,
-        "progress": {"obj": idx["process"][0] if idx["process"] else None, "safe": o.random() < 0.5},
+        "progress": {"obj": idx["process"][0] if idx["process"] else None,
+                     "safe": (o.random() < 0.5) and not (idx["process"] and pool[idx["process"][0]].get("ic_none"))},
     }
 
 
